@@ -88,13 +88,16 @@ func isSentinel(v ssa.Value, pkgSuffix, name string) bool {
 // other reason (what a *recorded* run says, a pid that happens to exist, ...)
 // blocks runs that must be startable / retryable: a run whose agent was killed
 // is recorded as running for ever.
-func c16ProbeRefusals(e *Env, probe *ssa.Function, none int64) {
+func c16ProbeRefusals(e *Env, probe *ssa.Function, none int64, within func(*ssa.Return) bool) {
 	r := e.R
 	ff := e.Facts(probe)
 	n := 0
 	for _, b := range probe.Blocks {
 		rt, ok := b.Instrs[len(b.Instrs)-1].(*ssa.Return)
 		if !ok || !ff.Reachable(b) {
+			continue
+		}
+		if within != nil && !within(rt) {
 			continue
 		}
 		allNil := true
@@ -158,15 +161,36 @@ func c16ProbeTable(e *Env) {
 	r := e.R
 	r.Rule("C16.probe-table", "DCS+VF", "probe and status getter decision tables", 4)
 	var probe *ssa.Function
-	if hs := e.agentRoles().Holders(apiProbe); len(hs) == 1 && hs[0] != e.agentRoles().Run {
+	inRun := false
+	if hs := e.agentRoles().Holders(apiProbe); len(hs) == 1 {
 		probe = hs[0]
+		inRun = probe == e.agentRoles().Run
 	} else {
-		r.Unknown("the agent's already-running probe", "internal/agent", sprintf("%d functions of the agent package call GetCurrentStatus (a probe written into Run itself is not supported)", len(hs)))
+		r.Unknown("the agent's already-running probe", "internal/agent", sprintf("%d functions of the agent package call GetCurrentStatus", len(hs)))
 	}
 	getter := e.Fn("internal/client", "(*client).GetCurrentStatus")
 	_, ss := e.EnumOf(schedRel, "Status")
 	none := ConstVal(ss, "StatusNone")
-	if probe != nil {
+	// the points at which the probe has passed: its nil returns - or, for a probe
+	// written into Run itself, the first things Run does afterwards (opening the
+	// history)
+	var passPoints []ssa.Instruction
+	var probeCall, firstEffect ssa.Instruction
+	if probe != nil && inRun {
+		for _, ci := range ir.CallsIn(probe, func(c *ssa.CallCommon) bool { return c.IsInvoke() && c.Method.Name() == "GetCurrentStatus" }) {
+			probeCall = ci
+		}
+		for _, ci := range e.agentRoles().Sites(probe, apiHistory+"Open") {
+			if ci.Parent() == probe {
+				passPoints = append(passPoints, ci)
+				firstEffect = ci
+			}
+		}
+		if probeCall == nil || firstEffect == nil {
+			r.Unknown("the agent's already-running probe (in Run)", e.Pos(probe.Pos()), "the probe call or the opening of the history after it was not found")
+			probe = nil
+		}
+	} else if probe != nil {
 		for _, b := range probe.Blocks {
 			for _, in := range b.Instrs {
 				rt, ok := in.(*ssa.Return)
@@ -179,9 +203,16 @@ func c16ProbeTable(e *Env) {
 						allNil = false
 					}
 				}
-				if !allNil {
-					continue
+				if allNil {
+					passPoints = append(passPoints, rt)
 				}
+			}
+		}
+	}
+	if probe != nil {
+		for _, pp := range passPoints {
+			{
+				rt := pp
 				lits := e.DCS(rt)
 				okNone, okErr := false, false
 				for _, l := range lits {
@@ -204,7 +235,14 @@ func c16ProbeTable(e *Env) {
 		}
 	}
 	if probe != nil {
-		c16ProbeRefusals(e, probe, none)
+		var within func(*ssa.Return) bool
+		if inRun {
+			// the refusals of the probe: the returns between the probe and what follows it
+			within = func(rt *ssa.Return) bool {
+				return ir.Precedes(probeCall, rt) && !ir.Precedes(firstEffect, rt)
+			}
+		}
+		c16ProbeRefusals(e, probe, none, within)
 	}
 	if getter == nil {
 		return
@@ -410,12 +448,11 @@ func c16ProbeTable(e *Env) {
 			for _, l := range tr.Trace(ci.Common().Args[1]) {
 				if l.Kind == "global" && l.Name == "ErrTimeout" {
 					// under a net.Error Timeout() test
-					for _, lit := range e.DCS(ci) {
-						if lit.Kind == "val" && lit.Pol {
-							if c, isC := ir.Resolve(lit.V).(*ssa.Call); isC && c.Call.IsInvoke() && c.Call.Method.Name() == "Timeout" {
-								ok = true
-							}
-						}
+					if HasVal(e.DCS(ci), func(v ssa.Value) bool {
+						c, isC := ir.Resolve(v).(*ssa.Call)
+						return isC && c.Call.IsInvoke() && c.Call.Method.Name() == "Timeout"
+					}, true) {
+						ok = true
 					}
 				}
 			}
